@@ -7,6 +7,10 @@ from checks import gen_pipeline
 
 def run(tier):
     chk = vlib.Check("X10", tier)
+    r = vlib.tlc("MC_Listing.tla", cfg="MC_Listing_quick.cfg" if tier == "quick" else "MC_Listing.cfg", workers=4, timeout=3000, tag="listing")
+    if not r.ok:
+        raise ToolError("MC_Listing failed:\n" + (r.error or r.out[-2000:]))
+    chk.add_tlc(r)
     res = gen_pipeline.run(tier, chk.seed)
     gen_pipeline.apply(chk, res, ["X10", "C09W"])
     st = res["stats"]
